@@ -32,7 +32,7 @@ MODEL_INV = {
 
 WITNESSES = {
     "C03": ["D3", "D8b", "D8b-overshoot", "KF-D8a", "KF-D8c", "KF-D9", "D5", "D12"],
-    "C04": ["D3", "D8d", "KF-D8c"],
+    "C04": ["D3", "D8d", "D15", "KF-D8c"],
     "C06": ["D1", "D8d", "D11", "D11b", "D14", "D8b", "KF-D9"],
     "C07": ["D3", "D12"],
     "C09": ["D5"],
@@ -94,12 +94,16 @@ def emit_behaviours(module, tag, params, tier, seed, wd, prop, rng, quick_n=400,
         r = model.check_model(module, cfg_text(module, pe, True), wd, "%s-%s-sim" % (prop, tag), workers=1,
                               timeout=1800, simulate=(thorough_n // 2, 12, seed % 100000 + 1))
         out = model.maximal(r["replays"], limit=thorough_n // 2, rng=rng)
-        pe2 = dict(params)
+        # exhaustive emission on the quick-tier constants (printing one script per explored transition
+        # is what costs; the sample is capped anyway)
+        qparams = [m for m in model_configs(prop if prop in MODEL_INV else "C03", "quick") if m[1] == tag]
+        pe2 = dict(qparams[0][2]) if qparams else dict(params)
+        pe2["invariants"] = params["invariants"]
         demit = None
         if module == "FftBlocks":
             pe2["depth"] = 6
         else:
-            demit = 4
+            demit = 4 if tag == "fast" else 3
         r2 = model.check_model(module, cfg_text(module, pe2, True, demit), wd, "%s-%s-emit" % (prop, tag),
                                workers=1, timeout=3000)
         out += model.maximal(r2["replays"], limit=thorough_n // 2, rng=rng)
